@@ -828,7 +828,26 @@ fn v2_database() -> ReflectionDatabase<'static> {
     add("storedAlias", VariantType::Int32, alias("Stored"));
     add("oldAlias", VariantType::BrickColor, alias("OldColor"));
     add("hiddenAlias", VariantType::Int32, alias("Hidden"));
+    // defaults on the class that introduces the properties ...
+    class.default_properties.insert(Cow::Borrowed("Plain"), Variant::Int32(77));
+    class.default_properties.insert(Cow::Borrowed("Stored"), Variant::Int32(88));
     database.classes.insert(Cow::Borrowed("ZzVerifShapes"), class);
+    // ... and two generations of subclasses: one that adds nothing, one that redeclares an
+    // inherited property (as CommandInstance redeclares Name) without a default of its own, and a
+    // grandchild with its own default for it
+    let mut child = ClassDescriptor::new("ZzVerifChild");
+    child.superclass = Some(Cow::Borrowed("ZzVerifShapes"));
+    let mut redeclared = PropertyDescriptor::new("Plain", DataType::Value(VariantType::Int32));
+    redeclared.kind = PropertyKind::Canonical { serialization: PropertySerialization::Serializes };
+    child.properties.insert(Cow::Borrowed("Plain"), redeclared);
+    database.classes.insert(Cow::Borrowed("ZzVerifChild"), child);
+    let mut plain_child = ClassDescriptor::new("ZzVerifPlainChild");
+    plain_child.superclass = Some(Cow::Borrowed("ZzVerifShapes"));
+    database.classes.insert(Cow::Borrowed("ZzVerifPlainChild"), plain_child);
+    let mut grandchild = ClassDescriptor::new("ZzVerifGrandchild");
+    grandchild.superclass = Some(Cow::Borrowed("ZzVerifChild"));
+    grandchild.default_properties.insert(Cow::Borrowed("Plain"), Variant::Int32(99));
+    database.classes.insert(Cow::Borrowed("ZzVerifGrandchild"), grandchild);
     database
 }
 
@@ -953,6 +972,29 @@ pub fn variant_databases() -> (Vec<(String, String)>, Value) {
         ("Hidden", Variant::Int32(1), vec![]),
         ("hiddenAlias", Variant::Int32(2), vec![]),
     ];
+    // the same, with the new property carried explicitly next to a legacy one: the explicit value wins
+    let explicit = Variant::Color3uint8(Color3uint8::new(7, 8, 9));
+    for (legacy, new_spelling) in [("OldColor", "NewColor"), ("OldColor", "NewColor8"), ("OldColorB", "NewColor"), ("OldColorB", "NewColor8"), ("oldAlias", "NewColor8")] {
+        for legacy_first in [true, false] {
+            let mut b = InstanceBuilder::new("ZzVerifShapes").with_name("x");
+            if legacy_first {
+                b = b.with_property(legacy, Variant::BrickColor(brick)).with_property(new_spelling, explicit.clone());
+            } else {
+                b = b.with_property(new_spelling, explicit.clone()).with_property(legacy, Variant::BrickColor(brick));
+            }
+            let dom = WeakDom::new(InstanceBuilder::new("DataModel").with_child(b));
+            let want = vec![("NewColor".to_owned(), r(&explicit))];
+            for (codec, got) in [("binary", rt_binary(&dom, v2)), ("xml", rt_xml(&dom, v2))] {
+                compared += 1;
+                if got.as_ref().ok() != Some(&want) {
+                    out.push((
+                        format!("c16|variant-db|shapes-explicit-wins|{}|{}+{}", codec, legacy, new_spelling),
+                        format!("ZzVerifShapes carrying the legacy {} and an explicit {}: through {} the result is {:?}, expected the explicit value under NewColor", legacy, new_spelling, codec, got),
+                    ));
+                }
+            }
+        }
+    }
     for (name, v, want) in &cases {
         let dom = WeakDom::new(InstanceBuilder::new("DataModel").with_child(InstanceBuilder::new("ZzVerifShapes").with_name("x").with_property(*name, v.clone())));
         for (codec, got) in [("binary", rt_binary(&dom, v2)), ("xml", rt_xml(&dom, v2)), ("binary-legacy-file", read_legacy(&dom, v2, false)), ("xml-legacy-file", read_legacy(&dom, v2, true))] {
@@ -969,5 +1011,38 @@ pub fn variant_databases() -> (Vec<(String, String)>, Value) {
             }
         }
     }
-    (out, json!({"respelled_duplicate_migrations": respelled.len(), "comparisons": compared, "synthetic_shape_spellings": cases.len()}))
+    // inherited defaults: through the database's own helper and through the binary default fill
+    for (cn, prop, want) in [
+        ("ZzVerifShapes", "Plain", 77),
+        ("ZzVerifPlainChild", "Plain", 77),
+        ("ZzVerifChild", "Plain", 77),
+        ("ZzVerifGrandchild", "Plain", 99),
+        ("ZzVerifShapes", "Stored", 88),
+        ("ZzVerifChild", "Stored", 88),
+        ("ZzVerifGrandchild", "Stored", 88),
+    ] {
+        compared += 2;
+        let got = crate::evidence::guarded(|| v2.find_default_property(&v2.classes[cn], prop).cloned());
+        if got.as_ref().ok().and_then(|g| g.as_ref()) != Some(&Variant::Int32(want)) {
+            out.push((format!("c16|variant-db|inherited-default|lookup|{}", cn), format!("find_default_property({}, {}) gives {:?}, the default {} is declared on an ancestor", cn, prop, got, want)));
+        }
+        let dom = WeakDom::new(
+            InstanceBuilder::new("DataModel")
+                .with_child(InstanceBuilder::new(cn).with_name("carrier").with_property(prop, Variant::Int32(5)))
+                .with_child(InstanceBuilder::new(cn).with_name("bare")),
+        );
+        let roots = dom.root().children().to_vec();
+        let filled = crate::evidence::guarded(|| -> Result<Option<String>, String> {
+            let mut buf = Vec::new();
+            rbx_binary::Serializer::new().reflection_database(v2).serialize(&mut buf, &dom, &roots).map_err(|e| format!("encode: {}", e))?;
+            let d = rbx_binary::Deserializer::new().reflection_database(v2).deserialize(buf.as_slice()).map_err(|e| format!("decode: {}", e))?;
+            let bare = d.root().children().get(1).and_then(|r| d.get_by_ref(*r)).ok_or("instance lost")?;
+            Ok(bare.properties.get(&prop.into()).map(r))
+        })
+        .unwrap_or_else(|(s, m)| Err(format!("panic at {}: {}", s, m)));
+        if filled != Ok(Some(r(&Variant::Int32(want)))) {
+            out.push((format!("c16|variant-db|inherited-default|fill|{}", cn), format!("[{cn}{{{prop}=5}}, {cn}{{}}] through rbx_binary: the second instance shows {:?}, the inherited default is {}", filled, want, cn = cn, prop = prop)));
+        }
+    }
+    (out, json!({"respelled_duplicate_migrations": respelled.len(), "comparisons": compared, "synthetic_shape_spellings": cases.len(), "inherited_default_lookups": 7}))
 }
